@@ -43,3 +43,72 @@ Theorem C12_append_after_revert_builds_on_target :
     llv fm (cur_segs (h_append f' higher)) k = sget fm higher (llv fm (h_segs ft)) k.
 Proof. exact append_after_revert_builds_on_target. Qed.
 Print Assumptions C12_append_after_revert_builds_on_target.
+
+(* ---------------------------------------------------------------------------
+   With child collections: a footer is a tree, the file is only reachable through
+   a persisted segment somewhere in that tree (PrevTree.v).  The statements are
+   over whole histories of persistence rounds (appended / compacted into the same
+   file / first footer of a new file) and reverts.
+   --------------------------------------------------------------------------- *)
+From Moss Require Import Tree TreeRun PrevTree PrevTreeFacts.
+
+(* the property's first sentence, for every history the store accepts: walking back
+   from the current snapshot yields exactly the contents exposed since the last
+   compaction (or new file), newest first, then nil; the head is the current content.
+   The specification side (spec_run) is written over the history alone — no links,
+   no indices.  Premise: every footer written holds a persisted segment somewhere
+   (without one the file cannot be found: C12_previous_needs_a_segment). *)
+Theorem C12_walk_is_history :
+  forall evs f, Forall ev_segs_ok evs -> th_run [] evs = Some f -> f <> [] ->
+    tcur_bs f :: walk_contents f = fst (spec_run evs).
+Proof. exact walk_is_history. Qed.
+Print Assumptions C12_walk_is_history.
+
+Theorem C12_tree_revert_is_exact :
+  forall f t f' ft i,
+    tlinks_ok f -> nth_error f t = Some ft -> tcurrent f = Some i -> th_revert f t = Some f' ->
+    tcurrent f' = Some (length f) /\
+    (exists fr, nth_error f' (length f) = Some fr /\ tf_node fr = tf_node ft /\ tf_bs fr = tf_bs ft) /\
+    (fn_any_segs (tf_node ft) = true ->
+       forall fuel, th_walk (S fuel) f' (length f) = i :: th_walk fuel f i) /\
+    (forall j, j < length f -> nth_error f' j = nth_error f j).
+Proof. exact tree_revert_is_exact. Qed.
+Print Assumptions C12_tree_revert_is_exact.
+
+(* every footer of the current file that holds a segment anywhere in its tree is a revert target *)
+Theorem C12_tree_revert_defined :
+  forall f t ft, f <> [] -> nth_error f t = Some ft -> fn_any_segs (tf_node ft) = true ->
+    exists f', th_revert f t = Some f'.
+Proof. exact tree_revert_defined. Qed.
+Print Assumptions C12_tree_revert_defined.
+
+Theorem C12_tree_round_after_revert_builds_on_target :
+  forall f t f' ft k b n,
+    nth_error f t = Some ft -> th_revert f t = Some f' ->
+    tcur_bs (th_round k f' b n) = tf_bs ft ++ [b].
+Proof. exact tree_round_after_revert_builds_on_target. Qed.
+Print Assumptions C12_tree_round_after_revert_builds_on_target.
+
+(* the limit of the mechanism: a footer whose tree holds no segment leads nowhere *)
+Theorem C12_previous_needs_a_segment :
+  forall f i fi, nth_error f i = Some fi -> fn_any_segs (tf_node fi) = false -> th_previous f i = None.
+Proof. exact tree_previous_needs_a_segment. Qed.
+Print Assumptions C12_previous_needs_a_segment.
+
+(* F37 (repaired, 8f6c423): the pinned SnapshotPrevious looked for the file in the top-level
+   collection only — with all data in a child collection it answered nil after two rounds *)
+Theorem C12_refuted_pre_fix_previous_child_only_F37 :
+  exists f i j, th_run [] [ERound TKAppend (b_child seg1) child_only_1; ERound TKAppend (b_child seg2) child_only_2] = Some f /\
+    tcurrent f = Some i /\ th_previous f i = Some j /\ th_previous_pinned f i = None /\
+    walk_contents f = [[b_child seg1]].
+Proof. exact previous_pinned_refuted_F37. Qed.
+Print Assumptions C12_refuted_pre_fix_previous_child_only_F37.
+
+(* F38 (repaired, 8f6c423): the pinned SnapshotRevert refused every target in which some
+   collection has no persisted segment *)
+Theorem C12_refuted_pre_fix_revert_segmentless_collection_F38 :
+  exists f t f', tlinks_ok f /\ nth_error f t <> None /\
+    th_revert f t = Some f' /\ th_revert_pinned f t = None /\
+    tcur_bs f' = [b_top_and_empty_child seg1].
+Proof. exact revert_pinned_refuted_F38. Qed.
+Print Assumptions C12_refuted_pre_fix_revert_segmentless_collection_F38.
